@@ -107,6 +107,32 @@ class C17(XsProp):
             cs.append(case)
             # text injected with `~)` becomes a source buffer of its own: earlier evaluations that injected shift the numbering
             self.expect[case] = (sum(1 + g.count('~)') for g in srcs), expected_loc(text, a, b), text, cul)
+        # failures raised by cells other than native words: a variable read refused inside a meta block, and a push (variable, literal,
+        # stack word) refused by the stack limit - at top level, in definitions, loops and blocks
+        for i in range(n // 5):
+            pre = ''.join(' ' + rng.choice(FILL) for _ in range(rng.randint(0, 5))) + ' '
+            if rng.random() < 0.3:
+                pre = pre.rstrip(' ') + rng.choice(['\n', '\r\n', '\n\n'])
+            if rng.random() < 0.45:
+                cul = 'counter'
+                body = rng.choice(['#( {C} #)', '#( [ 7 {C} 2 + ] #)', '#( true if {C} then #)', '#( : mw {C} ; mw #)', '#( 2 0 do {C} loop #)', '[ #( 1 {C} + #) ]',
+                                   '#( {C} 1 + #) 5', ': w #( {C} #) ;'])
+                lim = None
+            else:
+                cul = rng.choice(['counter', '4', 'dup', 'depth', '"s"', 'nil', 'over', '|ff|', 'true', '0x10', 'counter', 'counter'])
+                body = rng.choice(['1 2 3 {C}', ': fill 1 2 3 {C} dup + ; fill', '1 2 3 drop 9 {C} 5', ': a 3 {C} ; : b 2 a ; 1 b', '3 0 do I loop {C}',
+                                   '1 2 true if 3 {C} then', '1 2 3 {C} 1 +', ': fill 1 2 3 {C} ;\n fill'])
+                lim = 3
+            text = pre + body + rng.choice(['', ' 1 2', '\n3', ' \\ tail'])
+            ci = text.index('{C}')
+            text = text.replace('{C}', cul, 1)
+            a = len(text[:ci].encode('utf-8'))
+            b = a + len(cul.encode('utf-8'))
+            steps = ['xs limits 6000 - -', 'eval %s' % hexsrc('7 var counter')] + (['stacklimit %d' % lim] if lim else []) + \
+                    ['eval %s' % hexsrc(text), 'errloc', 'pretty']
+            case = ' | '.join(steps)
+            cs.append(case)
+            self.expect[case] = (1, expected_loc(text, a, b), text, cul)
         # the failing word lives in an EARLIER source and is reached from a later one (directly, through a definition, or from a
         # meta block): the report must name the earlier buffer and the token inside the definition
         for i in range(n // 6):
